@@ -211,6 +211,11 @@ func (g *gen) info(hostile bool) ([]byte, string) {
 	if r.Intn(6) == 0 {
 		kvs = append(kvs, kv{"meta", dict([]kv{{"a", blist(bint("1"), bstr([]byte("x")))}}, true, r)})
 	}
+	if hostile && r.Intn(10) == 0 {
+		// an unknown key nesting deeply: the decoder is recursive (a few megabytes of this overflow its stack)
+		kvs = append(kvs, kv{"zdeep", deepValue(pickDepth(r))})
+		tag = "deepinfo"
+	}
 	return dict(kvs, r.Intn(3) != 0, r), tag
 }
 
@@ -265,12 +270,25 @@ func (g *gen) torrent(hostile bool) ([]byte, string) {
 		kvs = append(kvs, kv{"info", []byte("i5e")})
 		tag = "dupinfo"
 	}
+	if hostile && r.Intn(10) == 0 {
+		kvs = append(kvs, kv{"zdeep", deepValue(pickDepth(r))})
+		tag = "deeptop"
+	}
 	out := dict(kvs, r.Intn(3) != 0, r)
 	if r.Intn(10) == 0 {
 		out = append(out, rbytes(r, 1+r.Intn(5))...)
 		tag += "+trail"
 	}
 	return out, tag
+}
+
+// deepValue is a well-formed value nesting d lists deep.
+func deepValue(d int) []byte {
+	return []byte(strings.Repeat("l", d) + strings.Repeat("e", d))
+}
+
+func pickDepth(r *rand.Rand) int {
+	return []int{5, 60, 61, 62, 63, 64, 65, 100, 3000}[r.Intn(9)]
 }
 
 func renderStrs(l []string) string {
@@ -401,6 +419,19 @@ func main() {
 			kind := "valid/"
 			if hostile {
 				kind = "hostile/"
+			}
+			if !hostile && i%8 == 1 && len(b) > 2 && b[0] == 'd' && b[len(b)-1] == 'e' {
+				// an otherwise valid file with one more key, nesting deeply, at the end of the
+				// top-level dictionary ("zdeep" sorts last) or of the info dictionary
+				d := pickDepth(g.r)
+				extra := append([]byte("5:zdeep"), deepValue(d)...)
+				if j := bytes.LastIndex(b, []byte("ee")); g.r.Intn(2) == 0 && j > 0 && tag == "" {
+					b = append(append(append([]byte{}, b[:j]...), extra...), b[j:]...)
+					kind += "deepinfo-"
+				} else {
+					b = append(append(append([]byte{}, b[:len(b)-1]...), extra...), 'e')
+					kind += "deeptop-"
+				}
 			}
 			switch g.r.Intn(12) {
 			case 0:
